@@ -1108,7 +1108,7 @@ class _lin(object):
                     self._coeff[v] = c[newlg*[0],:] + a
                 elif _isdmatrix(c) and c.size == (1,1):
                     m = +a
-                    m[::newlg+1] += c[0]
+                    m[::newlg+1] = m[::newlg+1] + c[0]
                     self._coeff[v] = m
                 else:
                     raise TypeError('incompatible dimensions')
@@ -1120,7 +1120,7 @@ class _lin(object):
                     self._coeff[v] = c + a
                 elif _isdmatrix(c) and c.size == (1,1):
                     m = a[lg*[0],:]
-                    m[::lg+1] += c[0]
+                    m[::lg+1] = m[::lg+1] + c[0]
                     self._coeff[v] = m
                 else:
                     raise TypeError('incompatible dimensions')
